@@ -318,7 +318,8 @@ func c10Run(run *ev.Run) {
 	run.Assumptions = []string{
 		"one second of granularity: at exactly c+A / u+I either answer is accepted",
 		"whether a read that finds the session but not the requested part, or a clear, counts as 'use' is left open (both candidates are kept)",
-		"background sweeps on a ticker inside the store would be driven by the virtual ticker after every clock advance; a sweep wired elsewhere (cmd/main.go) is only visible to the system-level part (C18's real-time replay)",
+		"background sweeps on a ticker inside the store would be driven by the virtual ticker after every clock advance",
+		"system level: a one-sided real-time replay through the real start-up wiring (loader, store factory PreRun, Check) on the memory store: 2 s limits must be enforced after 4 s, 3600 s limits must keep the session; miniredis has no wall-clock expiry, so Redis is judged at store level only",
 	}
 	vtime.SetVirtual(true)
 	defer vtime.SetVirtual(false)
@@ -359,6 +360,61 @@ func c10Run(run *ev.Run) {
 	}
 	run.States, run.Transitions, run.Traces, run.Evals = total.States, total.Transitions, total.Histories, total.Transitions
 	run.Extra["depth"] = depth
+	c10RealTime(run)
+}
+
+// c10RealTime: the service as actually assembled at start-up (real loader, real store factory PreRun, real
+// ExtAuthZFilter.Check with the real clock), memory store, one filter per configuration. One-sided real-time
+// assertions only: a 2 s limit must be enforced after 4 s; a 3600 s limit must not drop the session.
+func c10RealTime(run *ev.Run) {
+	type cfg struct {
+		name      string
+		abs, idle int
+		wantAlive bool
+	}
+	cfgs := []cfg{{"absolute=2s", 2, 0, false}, {"idle=2s", 0, 2, false}, {"absolute=3600s idle=3600s", 3600, 3600, true}}
+	type live struct {
+		c       cfg
+		sw      *world.SWorld
+		f       world.FilterSpec
+		sid, cn string
+	}
+	var ls []live
+	for _, c := range cfgs {
+		f := world.FilterSpec{Name: "a", Realm: "idp-a.test", ClientID: "client-a", Secret: "sa", Abs: c.abs, Idle: c.idle}
+		sw, err := world.NewSWorld([]world.FilterSpec{f}, nil)
+		if err != nil {
+			run.HarnessError("C10 real-time world: " + err.Error())
+			return
+		}
+		sid, cn, err := sw.Login(f)
+		if err != nil {
+			run.HarnessError("C10 real-time login: " + err.Error())
+			sw.Close()
+			return
+		}
+		// immediately after login the session must be honoured (only asserted for the long limits: no race with the clock)
+		if c.wantAlive {
+			if r := sw.Do(world.SReq{Tenant: "a", Path: "/a/app", Cookies: map[string]string{cn: sid}}); !r.OK {
+				run.Violation("C10 assembled-service-drops-fresh-session", "request right after login not OK with 3600 s limits", map[string]any{"config": c.name})
+			}
+		}
+		ls = append(ls, live{c, sw, f, sid, cn})
+	}
+	time.Sleep(4 * time.Second)
+	for _, l := range ls {
+		r := l.sw.Do(world.SReq{Tenant: "a", Path: "/a/app", Cookies: map[string]string{l.cn: l.sid}})
+		run.Class(fmt.Sprintf("realtime|%s|ok-after-4s=%v", l.c.name, r.OK))
+		run.Transitions += 3
+		if !l.c.wantAlive && r.OK {
+			run.Violation("C10 assembled-service-honours-past-limit store=memory config="+l.c.name,
+				"the service as assembled at start-up (memory store, "+l.c.name+") still answers OK 4 s after login", map[string]any{"config": l.c.name})
+		}
+		if l.c.wantAlive && !r.OK {
+			run.Violation("C10 assembled-service-drops-session-inside-limits", "3600 s limits but the session is gone after 4 s", map[string]any{"config": l.c.name})
+		}
+		l.sw.Close()
+	}
 }
 
 func c10ReplayFn(path string) int {
